@@ -40,7 +40,7 @@ configurations are only seen by the textual scan; libc/BLAS internals are out of
 import sys, os, re, json, hashlib, subprocess, tempfile, shutil
 from concurrent.futures import ProcessPoolExecutor
 
-VERSION = 'census-10'
+VERSION = 'census-11'
 sys.setrecursionlimit(20000)
 WRITABLE_NM = set('bBdDCsSgG')
 
@@ -104,7 +104,7 @@ ASSIGN_KINDS = ('BinaryOperator', 'CompoundAssignOperator')
 # locale, signal dispositions): a library routine that calls one depends on, or changes, what other calls see
 IMPURE_LIBC = frozenset('''getenv secure_getenv setenv putenv unsetenv clearenv rand srand random srandom drand48 erand48 lrand48 nrand48
 mrand48 jrand48 srand48 seed48 lcong48 strtok setlocale localtime gmtime asctime ctime tmpnam tempnam signal sigaction atexit
-strerror getlogin ttyname readdir getpwnam getpwuid gethostbyname chdir umask'''.split())
+strerror getlogin ttyname readdir getpwnam getpwuid gethostbyname chdir umask __errno_location'''.split())   # (errno: thread state left by earlier calls)
 CMP_OPS = ('==', '!=', '<', '>', '<=', '>=', '&&', '||')
 TRANSPARENT_CASTS = ('NoOp', 'BitCast', 'LValueBitCast')
 
